@@ -565,6 +565,23 @@ def _dump(chk, ctx, hh) -> None:
                                    and '.decode()' in ast.unparse(n.value) for n in ast.walk(lf.node))
     chk.ob('C16.dump', 'HandHistory.dump/load', ok_d and ok_l, dp.loc if dp else hh.loc,
            'dump writes exactly dumps() (encoded) and load reads exactly loads() of the decoded file', got=f'dump: {ok_d}; load: {ok_l}')
+    # several hands in one file: numbered tables [1], [2], ... of the single-hand text, read back table by table
+    da, la, dfa, lfa = (hh.methods.get(k) for k in ('dumps_all', 'loads_all', 'dump_all', 'load_all'))
+    multi = {
+        'each hand under its own header [i + 1]': da is not None and any(
+            isinstance(n, ast.JoinedStr) and T.alpha_eq(_text_shape(n), _text_shape(ast.parse("f'[{i + 1}]\\n{phh.dumps()}'", mode='eval').body), m.var_test(da.node))
+            for n in ast.walk(da.node))
+        if da is not None else False,
+        'hands numbered in the order given': da is not None and bool(m.fors(da.node, 'enumerate(phhs)')),
+        'every hand is kept, joined by blank lines': da is not None and bool(m.exprs(da.node, "'\\n\\n'.join(raw_phhs)")) and any(isinstance(c, ast.Call) and isinstance(c.func, ast.Attribute) and c.func.attr == 'append' for lp in m.fors(da.node, 'enumerate(phhs)') for c in ast.walk(lp)),
+        'every table is read back as a hand': la is not None and bool(m.fors(la.node, 'loads_toml(s, parse_float=parse_value).values()'))
+        and any(isinstance(n, ast.Yield) for n in ast.walk(la.node)),
+        'file forms are the string forms': dfa is not None and bool(m.calls(dfa.node, 'fp.write(cls.dumps_all(phhs).encode())'))
+        and lfa is not None and 'cls.loads_all(fp.read().decode()' in ast.unparse(lfa.node),
+    }
+    missing = [k for k, v in multi.items() if not v]
+    chk.ob('C16.dump', 'HandHistory.dumps_all/loads_all', not missing, da.loc if da else hh.loc,
+           'a file of several hands is the hands, in order, under numbered headers; loading yields every one of them', got=f'not found: {missing}' if missing else 'ok')
     # loads: unknown keys become user fields; parse_float goes through parse_value
     ld = hh.methods.get('loads')
     ok = ld is not None and any(isinstance(n, ast.Call) and getattr(n.func, 'id', '') == 'loads_toml'
